@@ -148,14 +148,18 @@ func parseRaceLogs(dir string) []raceBlock {
 }
 
 // fold moves what a concurrent workload observed into the run record.
-func fold(r *ev.Run, st *concStats) {
+func fold(r *ev.Run, st *concStats) { foldAs(r, st, "") }
+
+// foldAs is fold with a prefix on the counter names (witness runs are kept
+// apart from the generated workload: some counters are set sizes and maxima).
+func foldAs(r *ev.Run, st *concStats, prefix string) {
 	keys := make([]string, 0, len(st.Counts))
 	for k := range st.Counts {
 		keys = append(keys, k)
 	}
 	sort.Strings(keys)
 	for _, k := range keys {
-		r.Count(k, st.Counts[k])
+		r.Count(prefix+k, st.Counts[k])
 	}
 	r.Eval(st.Counts["conc:value-checks"] + st.Counts["conc:histories-checked"])
 	for _, v := range st.Violations {
@@ -163,6 +167,11 @@ func fold(r *ev.Run, st *concStats) {
 	}
 	for _, s := range st.Inconclusive {
 		r.Inconclusive(s)
+	}
+	if prefix == "" {
+		for _, s := range st.Samples {
+			r.Sample(map[string]any{"concurrent_history": s})
+		}
 	}
 }
 
